@@ -978,6 +978,7 @@ func runH2(env *core.Env, ci any) {
 	if client != nil && server != nil {
 		// first the connection windows, and only when that has settled the stream windows - through a SETTINGS
 		// increase alone, the one way of re-opening stream windows that involves no WINDOW_UPDATE
+		env.Sched.Drain(100000) // decreases bind only from a drained quiescent point
 		for _, p := range []*h2Peer{client, server} {
 			p.applyPendingDecreases()
 			p.grant(0, 1<<30, 0, false)
@@ -1132,6 +1133,13 @@ func judgeH2(env *core.Env, c *h2Case, client, server *h2Peer, ids []uint32) {
 				}
 				if strings.Contains(firstBad, "header list differs") && undecodable(d.to) {
 					feat = "after-undecodable-block"
+				} else if strings.Contains(firstBad, "header list differs") && len(d.from.cfg.Streams) > 1 {
+					// the same ordering problem can also resolve an index to the wrong table entry without a decoding error
+					for _, m := range d.from.cfg.Streams {
+						if m.Trailers > 0 && len(m.Data) > 0 {
+							feat = "header-block-overtakes-queued-trailers"
+						}
+					}
 				}
 				env.Fail("h2-stream-history", feat, "stream %d %s: %s\n  sent:     %s\n  received: %s", id, d.dir, firstBad, histString(sent), histString(got))
 			}
